@@ -13,36 +13,55 @@ META = {
                   'buffer depend only on the concatenation), one_reply_per_line, serve_total (whatever the dispatcher returns or '
                   'raises), reply_action_fits (table generated from REQUEST2REPLY, table facts by decide), error_class_is_secop, '
                   'independent_lines, lines_whole (no frame contains a newline of its own; any number of senders doing acquire / partial writes / release '
-                  'in any interleaving leave a concatenation of whole frames), codec_inverse over an abstract JSON layer.  The models are tied to '
-                  'frappy/protocol/interface/{__init__,handler,tcp}.py by a correspondence run on the real TCPRequestHandler over a '
-                  'scripted socket (stub dispatcher doing anything + the real Dispatcher over a small real node; two connections and an updater '
-                  'thread on one real dispatcher under a deterministic scheduler with partial writes), and the Lean monitors judge the bytes '
-                  'actually sent: whole lines, one fitting reply per request line, no events of modules the connection did not subscribe to.',
+                  'in any interleaving leave a concatenation of whole frames), codec_inverse over an abstract JSON layer; '
+                  'neutral_lines_removable / other_connections_unaffected ("no input changes the answers given to other lines": leaving out any request '
+                  'lines other than read/change/do -- describe, ping, activate, blank lines, unknown actions, undecodable bytes -- on this or on an earlier '
+                  'connection of the same dispatcher leaves every other reply as it is, for a dispatcher satisfying DispNeutral); a model of '
+                  'Dispatcher.handle_request and the handle_* methods over an abstract node (Wire/Dispatch) for which DispNeutral, the FitsOk half of DispFits '
+                  'and finiteness of the data handed on are proved (dispatcher_answers_independent, dispatcher_reply_fits, dispatcher_emitted_strict); '
+                  'peer_gone_prefix / peer_gone_sound (a socket whose sendall fails from call n on, any n: the peer has exactly the first n frames of the run '
+                  'without failure, the line being processed is finished, no later line reaches the dispatcher).  The models are tied to '
+                  'frappy/protocol/interface/{__init__,handler,tcp}.py and frappy/protocol/dispatcher.py by a correspondence run on the real TCPRequestHandler over a '
+                  'scripted socket (stub dispatcher doing anything + the real Dispatcher over a small real node, also with sockets that fail; the dispatcher model '
+                  'against the real Dispatcher per call, its request-only functions taken from fresh nodes; sessions of several connections one after the other on one '
+                  'node; two connections and an updater thread on one real dispatcher under a deterministic scheduler with partial writes), and the Lean monitors judge the bytes '
+                  'actually sent: whole lines, one fitting reply per request line, no events of modules the connection did not subscribe to, and -- on pairs of runs, '
+                  'the second without some neutral lines -- unchanged answers to all other lines.',
     'level_note': 'Trusted: Lean kernel + axioms propext/Classical.choice/Quot.sound; Python json and the UTF-8 codec enter the '
                   'model as parameters with the laws of Spec.C07.LibLaws; strictness of emitted JSON (judged on runs with the real Dispatcher; '
                   'what a stub dispatcher hands over is harness input) and validity of emitted UTF-8 are tested on the implementation side only; '
-                  'ThreadingTCPServer and the socket are not modelled (sendall = a sequence of partial writes that succeed; send_lock = a lock '
-                  'acquired only when free).',
+                  'ThreadingTCPServer and the socket are not modelled (sendall = a sequence of partial writes that succeed, or a call that fails as a whole; '
+                  'send_lock = a lock acquired only when free).  The answers compared by the independence monitor are canonicalised by the harness: time stamps '
+                  'masked, error reports reduced to the class name.',
     'trusted': [
         'LibLaws: json.loads(json.dumps(x)) == x; json.dumps output is non-empty ASCII without newline that begins and ends with a '
         'printable non-blank character; UTF-8 validity of a text joined by blanks is validity of the parts',
         'splitting a decoded text at U+0020 is splitting its UTF-8 bytes at 0x20',
         'driver glue: utf8ok / json.loads of the model are answered by the real Python functions on the arguments the model passes '
-        '(oracle tables)',
+        '(oracle tables); for the dispatcher model: descriptive data and the checks of activate / logging are tables computed on fresh nodes, '
+        'what a module did with read/change/do is what the real module did in that call, Python truth values of request data come from Python',
         'the dispatcher raises only subclasses of Exception (KeyboardInterrupt/SystemExit are not answered)',
-        'sends succeed (the peer reads); a failing sendall ends the connection by design',
+        'what a failing sendall wrote before it raised is not modelled (the peer is gone)',
     ],
     'modelled_not_verified': [
         'socketserver.ThreadingTCPServer / socket.recv / sendall (scripted fake socket)',
         'threading.Lock (send_lock): modelled as SendStep.acquire enabled only when nobody holds it; sendall as partial writes by the holder',
         'formatException / formatExtendedStack texts inside error reports (not observed; formatExtendedStack is replaced by a stub during the run because it repr()s every local of the harness frames)',
+        'SecNode / modules / datatypes behind the dispatcher: parameters of the dispatcher model (NodeIf); subscriptions and remote log levels only as '
+        'abstract bookkeeping that never influences a reply; the events a request causes are not compared with the dispatcher model (abstract function)',
     ],
     'assumptions': [
         'DispFits (hypothesis of reply_action_fits / lines_whole): positive replies of the dispatcher are well-formed triples that belong '
-        'to the request; checked on the real Dispatcher by the monitors',
-        'observation = per emitted line (action, specifier, error class, has data); message texts and time stamps are not compared',
+        'to the request; its FitsOk half is proved for the dispatcher model, well-formedness of specifiers is checked on the real Dispatcher by the monitors',
+        'DispNeutral (hypothesis of neutral_lines_removable): proved for the dispatcher model over any NodeIf, i.e. assuming that descriptive data and the '
+        'checks of activate / logging are functions of the request alone and that no reply depends on subscriptions; checked on the real node by the '
+        'correspondence run (fresh-node tables) and by the independence monitor',
+        'NodeFinite (hypothesis of dispatcher_emitted_strict): the node hands only finite numbers to the dispatcher',
+        'observation = per emitted line (action, specifier, error class, has data); for the independence monitor and the dispatcher model also the '
+        'data (JSON text, time stamps masked); message texts and time stamps are not compared',
     ],
 }
+
 
 HERE = os.path.dirname(os.path.abspath(__file__))
 
@@ -50,10 +69,14 @@ HERE = os.path.dirname(os.path.abspath(__file__))
 # ----------------------------------------------------------------------------------------
 # the real handler around a scripted socket
 # ----------------------------------------------------------------------------------------
+GONE = {'pipe': BrokenPipeError, 'reset': ConnectionResetError, 'os': OSError, 'timeout': TimeoutError, 'other': ValueError}
+
+
 class FakeSock:
-    def __init__(self, chunks):
+    def __init__(self, chunks, gone=None):
         self.chunks = list(chunks)
         self.out = []
+        self.gone = gone       # {'after': n, 'exc': kind}: the peer goes away, only the first n calls of sendall succeed
 
     def settimeout(self, t):
         pass
@@ -61,7 +84,18 @@ class FakeSock:
     def recv(self, n):
         return self.chunks.pop(0) if self.chunks else b''
 
+    def recv_into(self, buf, nbytes=0):
+        """the other receive call of a socket: fills the caller's buffer, returns the number of bytes"""
+        data = self.recv(nbytes or len(buf))
+        size = min(len(data), nbytes or len(buf))
+        if size < len(data):
+            self.chunks.insert(0, data[size:])
+        buf[:size] = data[:size]
+        return size
+
     def sendall(self, b):
+        if self.gone is not None and len(self.out) >= self.gone['after']:
+            raise GONE[self.gone['exc']]('the peer is gone')
         self.out.append(bytes(b))
 
     def shutdown(self, how):
@@ -132,8 +166,9 @@ def secop_by_name():
 class StubDispatcher:
     """does, per call, what the plan says (cyclic); records what it was asked and what it did"""
 
-    def __init__(self, plan):
+    def __init__(self, plan, by_request=False):
         self.plan = plan or ['ok']
+        self.by_request = by_request     # what it does is a function of the request alone (no state at all)
         self.calls = []
         self.script = []
         self.sock = None
@@ -147,7 +182,11 @@ class StubDispatcher:
     def handle_request(self, conn, msg):
         from frappy.protocol.messages import REQUEST2REPLY, IDENTREQUEST, IDENTREPLY, EVENTREPLY, LOG_EVENT
         from frappy.errors import ProtocolError
-        kind = self.plan[len(self.calls) % len(self.plan)]
+        if self.by_request:
+            import zlib
+            kind = self.plan[zlib.crc32(repr(msg).encode('utf-8', 'replace')) % len(self.plan)]
+        else:
+            kind = self.plan[len(self.calls) % len(self.plan)]
         self.calls.append(msg)
         action, spec, data = msg
         rec = {'async': []}
@@ -206,7 +245,12 @@ class RecordingDispatcher:
         self.calls.append(msg)
         rec = {'async': []}
         self.script.append(rec)
-        n0 = len(self.sock.out)
+        concurrent = getattr(self, 'concurrent', False)
+        tried = []
+        if not concurrent:
+            # what the dispatcher sends itself during this call (also when the connection has stopped sending)
+            send = conn.send_reply
+            conn.send_reply = lambda data: (tried.append(data), send(data))[1]
         try:
             reply = self.real.handle_request(conn, msg)
         except SECoPError as e:
@@ -216,7 +260,9 @@ class RecordingDispatcher:
             rec.update(r='exc')
             raise
         finally:
-            rec['async'] = [] if getattr(self, 'concurrent', False) else [frame_rec(f) for f in self.sock.out[n0:]]
+            if not concurrent:
+                del conn.send_reply
+            rec['async'] = [t for t in map(triple_rec, tried) if t is not None]
         t = triple_rec(reply) if reply else None
         if t is None:
             rec.update(r='garbage')
@@ -272,6 +318,11 @@ def make_real_node(nan):
         restart = shutdown = None
 
     _node_counter[0] += 1
+    # the loggers of the nodes made before are garbage (one node is in use at a time), but the logging module keeps
+    # every logger ever made and walks through all of them at each setLevel: forget them
+    known = logging.Logger.manager.loggerDict
+    for name in [n for n in known if n.startswith('c07n')]:
+        del known[name]
     root = mlzlog.MLZLogger('c07n%d' % _node_counter[0])
     root.setLevel(logging.DEBUG)
     root.addHandler(RemoteLogHandler())
@@ -330,31 +381,41 @@ def obs_frame(frame):
     return {'a': hx(p[0]), 's': hx(p[1]), 'c': cls, 'd': p[2] != b''}
 
 
-def run_impl(case):
-    """deliver the chunks to a real TCPRequestHandler; returns what it sent and what the dispatcher saw/did"""
-    from frappy.protocol.interface.tcp import TCPRequestHandler
+def set_stack_dump(detailed):
     import frappy.protocol.interface.handler as fh
     # the stack dumps inside error reports repr() every local of every frame (including the harness's case lists);
     # their text is not observed (detailed_errors is off, the dict is cleared before sending)
     if 'stack' not in _ORIG:
         _ORIG['stack'], _ORIG['tb'] = fh.formatExtendedStack, fh.formatExtendedTraceback
-    detailed = bool(case['disp'].get('detailed'))
     if detailed:      # the detailed_errors=True path with the real stack dump
         fh.formatExtendedStack, fh.formatExtendedTraceback = _ORIG['stack'], _ORIG['tb']
     else:
         fh.formatExtendedStack = lambda *a, **k: ''
         fh.formatExtendedTraceback = lambda *a, **k: ''
-    chunks = [bytes.fromhex(c) for c in case['chunks']]
-    sock = FakeSock(chunks)
-    disp = case['disp']
+    return detailed
+
+
+def make_dispatcher(disp):
+    """the dispatcher of a case: a stub, or the real Dispatcher of a fresh small node (returned unwrapped)"""
     if disp['kind'] == 'stub':
-        d = StubDispatcher(disp['plan'])
-    else:
-        node = make_real_node(disp.get('nan', False))
-        if disp.get('ts'):
-            # a time stamp handed in from outside (proxy / sea modules relay the remote node's), here not finite
-            node.secnode.modules['m'].announceUpdate('value', 2.0, None, float(disp['ts']))
-        d = RecordingDispatcher(node.dispatcher)
+        return StubDispatcher(disp['plan'], disp.get('by_request', False))
+    node = make_real_node(disp.get('nan', False))
+    if disp.get('ts'):
+        # a time stamp handed in from outside (proxy / sea modules relay the remote node's), here not finite
+        node.secnode.modules['m'].announceUpdate('value', 2.0, None, float(disp['ts']))
+    return node.dispatcher
+
+
+def run_impl(case, shared=None):
+    """deliver the chunks to a real TCPRequestHandler; returns what it sent and what the dispatcher saw/did.
+    `shared`: the dispatcher of a node that lives longer than this connection (sessions)"""
+    from frappy.protocol.interface.tcp import TCPRequestHandler
+    detailed = set_stack_dump(bool(case['disp'].get('detailed')))
+    chunks = [bytes.fromhex(c) for c in case['chunks']]
+    sock = FakeSock(chunks, case.get('gone'))
+    d = shared if shared is not None else make_dispatcher(case['disp'])
+    if not isinstance(d, StubDispatcher):
+        d = RecordingDispatcher(d)
     d.sock = sock
     srv = ServerStub(d)
     srv.detailed_errors = detailed
@@ -386,6 +447,11 @@ class SchedSock(FakeSock):
     def recv(self, n):
         self.sched.yield_(('recv', self.name))
         return super().recv(n)
+
+    def recv_into(self, buf, nbytes=0):
+        size = super().recv_into(buf, nbytes)
+        self.sched.yield_(('received', self.name))     # the thread may lose the processor before it looks at the buffer
+        return size
 
     def sendall(self, b):
         b = bytes(b)
@@ -455,35 +521,71 @@ def run_concurrent(case):
 
 def evaluate_concurrent(ctx, case):
     """run and judge one concurrent case; returns {'bad': None | {...}, 'res': ...}"""
-    res = run_concurrent(case)
-    streams = {'A': b''.join(bytes.fromhex(c) for c in case['chunks']), 'B': b''.join(ln + b'\n' for ln in B_SCRIPT)}
-    reqs = []
-    for name in 'AB':
-        outs = res[name]['lines']
-        reqs.append({'p': 'C07', 'k': 'judge', 'stream': hx(streams[name]), 'outs': [hx(o) for o in outs],
-                     'flags': [line_flags(o, True) for o in outs]})
-    reqs.append({'p': 'C07', 'k': 'judge_events', 'outs': [hx(o) for o in res['B']['lines']], 'subscribed': [hx(x) for x in B_SUBSCRIBED]})
-    ja, jb, je = ctx.driver.batch(reqs)
-    for a in (ja, jb, je):
+    return evaluate_concurrent_many(ctx, [case])[0]
+
+
+def evaluate_concurrent_many(ctx, cases):
+    """run the concurrent cases, then judge all of them (two driver batches)"""
+    stream_b = b''.join(ln + b'\n' for ln in B_SCRIPT)
+    orc = oracles_for(ctx, [b''.join(bytes.fromhex(c) for c in case['chunks']) for case in cases] + [stream_b])
+    runs, reqs = [], []
+    for case in cases:
+        res = run_concurrent(case)
+        streams = {'A': b''.join(bytes.fromhex(c) for c in case['chunks']), 'B': stream_b}
+        for name in 'AB':
+            outs = res[name]['lines']
+            reqs.append({'p': 'C07', 'k': 'judge', 'stream': hx(streams[name]), 'outs': [hx(o) for o in outs],
+                         'flags': [line_flags(o, True) for o in outs]})
+        reqs.append({'p': 'C07', 'k': 'judge_events', 'outs': [hx(o) for o in res['B']['lines']],
+                     'subscribed': [hx(x) for x in B_SUBSCRIBED]})
+        reqs.append(dict({'p': 'C07', 'k': 'neutral', 'stream': hx(streams['A'])}, **orc[streams['A']]))
+        runs.append((case, res, streams))
+    ans = ctx.driver.batch(reqs)
+    for a in ans:
         if 'driver_error' in a:
             raise RuntimeError(a)
-    bad = None
-    if res['errors']:
-        bad = {'clause': 'thread_died', 'errors': res['errors']}
-    elif ja['bad'] is not None:
-        bad = dict(ja['bad'], conn='A')
-    elif jb['bad'] is not None:
-        bad = dict(jb['bad'], conn='B')
-    elif je['bad'] is not None:
-        bad = {'clause': 'no_leak', 'i': je['bad'], 'conn': 'B'}
-    return {'bad': bad, 'res': res, 'case': case}
+    reqs2, idx = [], []
+    for i, (case, res, streams) in enumerate(runs):
+        na = ans[4 * i + 3]
+        if all(na['neutral']):
+            # nothing A sends is carried out by a module: B must be answered as if A (all of it left out) had never connected
+            alone = run_session({'kind': 'real'}, [[hx(stream_b)]])[0]
+            res['B_alone'] = alone['outs']
+            idx.append(i)
+            reqs2.append({'p': 'C07', 'k': 'judge_indep', 'conns': [
+                dict({'stream': hx(streams['A']), 'keep': [False] * len(na['neutral']),
+                      'all': [hx(canon_frame(o)) for o in res['A']['lines']], 'kept': []}, **orc[streams['A']]),
+                dict({'stream': hx(stream_b), 'keep': [True] * len(B_SCRIPT),
+                      'all': [hx(canon_frame(o)) for o in res['B']['lines']], 'kept': [hx(canon_frame(o)) for o in alone['outs']]},
+                     **orc[stream_b])]})
+    indep = dict(zip(idx, ctx.driver.batch(reqs2))) if reqs2 else {}
+    out = []
+    for i, (case, res, streams) in enumerate(runs):
+        ja, jb, je = ans[4 * i:4 * i + 3]
+        ji = indep.get(i)
+        if ji is not None and 'driver_error' in ji:
+            raise RuntimeError(ji)
+        bad = None
+        if res['errors']:
+            bad = {'clause': 'thread_died', 'errors': res['errors']}
+        elif ja['bad'] is not None:
+            bad = dict(ja['bad'], conn='A')
+        elif jb['bad'] is not None:
+            bad = dict(jb['bad'], conn='B')
+        elif je['bad'] is not None:
+            bad = {'clause': 'no_leak', 'i': je['bad'], 'conn': 'B'}
+        elif ji is not None and ji['bad'] is not None:
+            bad = dict(ji['bad'], conn='AB'[ji['bad']['conn']])
+        out.append({'bad': bad, 'res': res, 'case': case, 'compared_with_B_alone': ji is not None})
+    return out
 
 
 def gen_concurrent(rng):
     lines = []
+    probes = rng.random() < 0.4      # A asks for nothing a module carries out: B is then compared with B alone on a fresh node
     for _ in range(rng.choice([2, 3, 4, 6])):
-        ln = gen_request(rng, True)
-        if rng.random() < 0.4:
+        ln = gen_probe(rng) if probes else gen_request(rng, True)
+        if rng.random() < (0.15 if probes else 0.4):
             ln = mutate(rng, ln)
         lines.append(ln)
     if rng.random() < 0.7:
@@ -492,6 +594,296 @@ def gen_concurrent(rng):
     return {'kind': 'concurrent', 'chunks': [hx(c) for c in segment(rng, stream) if c], 'sched_seed': rng.randrange(1 << 30),
             'preempt': rng.choice([0.2, 0.5, 0.8]), 'piece': rng.choice([1, 3, 5, 16, 4096]), 'updates': rng.choice([2, 6]),
             'b_one_chunk': rng.random() < 0.5}
+
+
+# ----------------------------------------------------------------------------------------
+# sessions: several connections one after the other on ONE node (the dispatcher is shared by all connections of a node),
+# and the same session again on a fresh node with some neutral request lines left out -- "no input changes the answers
+# given to other lines".  Which lines are neutral is decided in Lean (verb `neutral`), and so is the verdict (`judge_indep`).
+# ----------------------------------------------------------------------------------------
+def canon_frame(frame):
+    """an emitted line without what legitimately differs between two runs: the time stamp in the qualifiers of
+    `[value, {qualifiers}]` is masked, an error report is reduced to its class name (canonicalisation only)"""
+    body = frame[:-1] if frame.endswith(b'\n') else frame
+    p = body.split(b' ', 2)
+    if len(p) < 3:
+        return frame
+    try:
+        data = json.loads(p[2])
+    except Exception:
+        return frame
+    if p[0].startswith(b'error_'):
+        if isinstance(data, list) and data and isinstance(data[0], str):
+            data = [data[0]]
+    elif isinstance(data, list) and len(data) == 2 and isinstance(data[1], dict) and 't' in data[1]:
+        data = [data[0], dict(data[1], t=0)]
+    return b' '.join(p[:2] + [json.dumps(data).encode()]) + (b'\n' if frame.endswith(b'\n') else b'')
+
+
+def run_session(disp, conns):
+    """`conns`: one chunk list (hex) per connection; the connections are served one after the other by real
+    TCPRequestHandlers on one dispatcher.  Returns one run_impl result per connection."""
+    d = make_dispatcher(disp)
+    res = []
+    for chunks in conns:
+        n0 = len(d.calls) if isinstance(d, StubDispatcher) else 0
+        r = run_impl({'chunks': chunks, 'disp': disp}, shared=d)
+        if n0:
+            r['calls'], r['script'] = r['calls'][n0:], r['script'][n0:]
+        elif isinstance(d, StubDispatcher):
+            r['calls'], r['script'] = list(r['calls']), list(r['script'])
+        res.append(r)
+    return res
+
+
+PROBE_ACTIONS = ['describe', 'describe', 'describe', 'activate', 'deactivate', 'ping', 'logging', '*IDN?', 'help']
+
+
+def gen_probe(rng):
+    """a request that asks for nothing a module carries out, with any specifier"""
+    action = rng.choice(PROBE_ACTIONS) if rng.random() < 0.85 else rng.choice(COLLIDING)
+    spec = rng.choice(SPECS) if rng.random() < 0.8 else ''
+    data = ''
+    if action == 'logging':
+        data = rng.choice(['"debug"', '"off"', '"error"', '1', ''])
+    elif rng.random() < 0.1:
+        data = rng.choice(DATA)
+    if data and not spec:
+        spec = rng.choice(SPECS[1:])
+    return ' '.join([action, spec, data] if data else ([action, spec] if spec else [action])).encode('utf-8')
+
+
+def gen_session(rng):
+    """the streams of 1-3 connections of one node"""
+    streams = []
+    for _ in range(rng.choice([1, 2, 2, 3])):
+        lines = []
+        for _ in range(rng.choice([1, 2, 3, 4, 6])):
+            ln = gen_probe(rng) if rng.random() < 0.55 else gen_request(rng, True)
+            if rng.random() < 0.25:
+                ln = mutate(rng, ln)
+            elif ln.split(b' ')[0] in (b'read', b'change', b'do') and rng.random() < 0.3:
+                # a request for a module that is not a message: broken JSON or invalid UTF-8 (may be left out as well)
+                if rng.random() < 0.5:
+                    ln = b' '.join((ln.split(b' ', 2) + [b'm'])[:2] + [rng.choice(BROKEN_JSON).encode()])
+                else:
+                    pos = rng.randrange(len(ln) + 1)
+                    ln = ln[:pos] + rng.choice(BAD_UTF8) + ln[pos:]
+            lines.append(ln)
+        stream = b''.join(ln + rng.choice(EOLS) for ln in lines)
+        if rng.random() < 0.1:
+            stream += gen_request(rng, True)[:rng.randrange(1, 8)]
+        streams.append(stream)
+    if rng.random() < 0.75:
+        disp = {'kind': 'real', 'nan': rng.random() < 0.1}
+    else:
+        disp = {'kind': 'stub', 'plan': gen_plan(rng), 'by_request': True}
+    return streams, disp
+
+
+def choose_marks(rng, neutral):
+    """which lines stay (`neutral`: per connection, per line, may the line be left out?)"""
+    mode = rng.randrange(5)
+    cand = [(i, k) for i, ns in enumerate(neutral) for k, n in enumerate(ns) if n]
+    keep = [[True] * len(ns) for ns in neutral]
+    if not cand:
+        return keep
+    if mode == 0:        # one line
+        drop = [rng.choice(cand)]
+    elif mode == 1:      # all of them
+        drop = cand
+    elif mode == 2:      # all of them on one connection: the others must not notice
+        c = rng.choice(cand)[0]
+        drop = [x for x in cand if x[0] == c]
+    else:
+        drop = [x for x in cand if rng.random() < 0.5] or [rng.choice(cand)]
+    for i, k in drop:
+        keep[i][k] = False
+    return keep
+
+
+def kept_stream(stream, keep):
+    pieces = stream.split(b'\n')
+    return b''.join(ln + b'\n' for ln, k in zip(pieces[:-1], keep) if k) + pieces[-1]
+
+
+def session_case(rng, streams, disp, keep):
+    return {'kind': 'session', 'disp': disp,
+            'conns': [{'chunks': [hx(c) for c in segment(rng, s) if c], 'keep': k,
+                       'kept_chunks': [hx(c) for c in segment(rng, kept_stream(s, k)) if c]} for s, k in zip(streams, keep)]}
+
+
+def evaluate_sessions(ctx, cases):
+    """both runs of every session on the implementation; every connection of both runs goes through the wire model and
+    the per-connection judge like any other case; then the pair of runs is judged for independence"""
+    out = []
+    flat_cases, flat_impls = [], []
+    for case in cases:
+        full = run_session(case['disp'], [c['chunks'] for c in case['conns']])
+        kept = run_session(case['disp'], [c['kept_chunks'] for c in case['conns']])
+        for c, r in zip(case['conns'], full):
+            flat_cases.append({'chunks': c['chunks'], 'disp': case['disp']})
+            flat_impls.append(r)
+        for c, r in zip(case['conns'], kept):
+            flat_cases.append({'chunks': c['kept_chunks'], 'disp': case['disp']})
+            flat_impls.append(r)
+        out.append({'case': case, 'full': full, 'kept': kept})
+    evs = evaluate(ctx, flat_cases, flat_impls)
+    orc = oracles_for(ctx, [bytes.fromhex(''.join(c['chunks'])) for case in cases for c in case['conns']])
+    reqs = []
+    pos = 0
+    for o in out:
+        n = len(o['case']['conns'])
+        o['evs'] = evs[pos:pos + 2 * n]
+        pos += 2 * n
+        reqs.append({'p': 'C07', 'k': 'judge_indep', 'conns': [
+            dict({'stream': ''.join(c['chunks']), 'keep': c['keep'], 'all': [hx(canon_frame(x)) for x in f['outs']],
+                  'kept': [hx(canon_frame(x)) for x in k['outs']]}, **orc[bytes.fromhex(''.join(c['chunks']))])
+            for c, f, k in zip(o['case']['conns'], o['full'], o['kept'])]})
+    for o, a in zip(out, ctx.driver.batch(reqs)):
+        if 'driver_error' in a:
+            raise RuntimeError(f'driver error: {a} on {o["case"]}')
+        if a['bad'] is not None and a['bad']['clause'] == 'case_drops_state_request':
+            raise RuntimeError(f'session case leaves out a line that is not neutral: {a} {o["case"]}')
+        o['bad'] = a['bad']
+    return out
+
+
+def session_lines(case):
+    return [b''.join(bytes.fromhex(x) for x in c['chunks']).split(b'\n')[:-1] for c in case['conns']]
+
+
+def session_signature(o):
+    """the request class of the line whose answer changed"""
+    bad = o['bad']
+    kept = [ln for ln, k in zip(session_lines(o['case'])[bad['conn']], o['case']['conns'][bad['conn']]['keep']) if k]
+    return 'C07:independent:answer_changed:' + (request_class(kept[bad['k']]) if bad['k'] < len(kept) else '?')
+
+
+def describe_session(o):
+    bad = o['bad']
+    txt = f"{bad}: dispatcher={o['case']['disp']}"
+    for i, (lines, c, f, k) in enumerate(zip(session_lines(o['case']), o['case']['conns'], o['full'], o['kept'])):
+        txt += (f" | connection {i}: lines={[ln[:60] for ln in lines]} left out={[j for j, x in enumerate(c['keep']) if not x]}"
+                f" answers with all lines={[x[:70] for x in f['outs']][:8]} answers without them={[x[:70] for x in k['outs']][:8]}")
+    return txt
+
+
+def shrink_session(ctx, o):
+    """fewest lines (each in one chunk, '\\n' as terminator) that still make the judge complain in the same way"""
+    sig = session_signature(o)
+    case = o['case']
+    items = [(i, ln, k) for i, (lines, c) in enumerate(zip(session_lines(case), case['conns'])) for ln, k in zip(lines, c['keep'])]
+
+    def build(its):
+        conns = []
+        for i in sorted({j for j, _, _ in its}):      # connections left without a line are not opened
+            mine = [(ln, k) for j, ln, k in its if j == i]
+            conns.append({'chunks': [hx(b''.join(ln + b'\n' for ln, _ in mine))] if mine else [],
+                          'keep': [k for _, k in mine],
+                          'kept_chunks': [hx(b''.join(ln + b'\n' for ln, k in mine if k))] if any(k for _, k in mine) else []})
+        return {'kind': 'session', 'disp': case['disp'], 'conns': conns}
+
+    def fails(its):
+        e = evaluate_sessions(ctx, [build(its)])[0]
+        return e['bad'] is not None and session_signature(e) == sig
+
+    try:
+        if not fails(items):
+            return o
+        small = ddmin(items, fails, max_tests=80)
+        return evaluate_sessions(ctx, [build(small)])[0]
+    except Exception:
+        return o
+
+
+# ----------------------------------------------------------------------------------------
+# the dispatcher model: what is a function of the request alone (descriptive data, the checks of activate / logging) is
+# computed on a FRESH node per entry -- the node under test, whatever it has been through, must answer alike
+# ----------------------------------------------------------------------------------------
+_STATIC = {}
+
+
+class _NullConn:
+    def send_reply(self, msg):
+        pass
+
+
+def _outcome(func):
+    """{'r': 'ok', 'd': hex of the JSON text | None} / {'r': 'secop', 'cls': hex} / {'r': 'exc'}"""
+    from frappy.errors import SECoPError
+    try:
+        data = func()
+        return {'r': 'ok', 'd': None if data is None else hx(json.dumps(data).encode())}
+    except SECoPError as e:
+        return {'r': 'secop', 'cls': hx(str(e.name).encode())}
+    except Exception:
+        return {'r': 'exc'}
+
+
+def static_entry(kind, spec, level=None):
+    key = (kind, spec, json.dumps(level))
+    if key not in _STATIC:
+        node = make_real_node(False)
+        with contextlib.redirect_stdout(io.StringIO()):
+            if kind == 'describe':
+                _STATIC[key] = _outcome(lambda: node.secnode.get_descriptive_data(spec))
+            elif kind == 'activate':
+                _STATIC[key] = _outcome(lambda: node.dispatcher.handle_activate(_NullConn(), spec, None) and None)
+            else:
+                _STATIC[key] = _outcome(lambda: node.dispatcher.handle_logging(_NullConn(), spec, level) and None)
+    return _STATIC[key]
+
+
+def dispatch_request(im):
+    """the request for the dispatcher model: the calls the real dispatcher got, what the module did in each, the tables"""
+    from frappy.protocol.messages import DESCRIPTIONREQUEST, ENABLEEVENTSREQUEST, LOGGING_REQUEST
+    calls, descr, act, logg, truthy = [], {}, {}, {}, {}
+    for (action, spec, data), rec in zip(im['calls'], im['script']):
+        d = None if data is None else hx(json.dumps(data).encode())
+        mod = {'r': rec.get('r'), 'd': rec.get('d'), 'cls': rec.get('cls')} if rec.get('r') in ('ok', 'secop') else {'r': 'exc'}
+        calls.append({'a': hx(enc(action)), 's': None if spec is None else hx(enc(spec)), 'd': d, 'mod': mod})
+        if d is not None:
+            truthy[d] = bool(data)
+        if action == DESCRIPTIONREQUEST:
+            descr[hx(enc(spec or ''))] = static_entry('describe', spec or '')
+        elif action == ENABLEEVENTSREQUEST and spec:
+            act[hx(enc(spec))] = static_entry('activate', spec).get('cls')
+        elif action == LOGGING_REQUEST:
+            logg[(None if spec is None else hx(enc(spec)), d)] = static_entry('logging', spec, data)
+    return {'p': 'C07', 'k': 'dispatch', 'calls': calls,
+            'describe': [dict(v, s=k) for k, v in descr.items()],
+            'activate': [{'s': k, 'cls': v} for k, v in act.items()],
+            'logging': [dict(v, s=k[0], lv=k[1]) for k, v in logg.items()],
+            'truthy': [[k, v] for k, v in truthy.items()]}
+
+
+def count_dispatch(res, ev):
+    if 'dmodel' in ev:
+        for call, mr in zip(ev['impl']['calls'], ev['dmodel']['results']):
+            res.count('dispatcher-model.%s.%s' % (call[0] if call[0] in known_actions() else 'other', mr['r']))
+
+
+def compare_dispatch(ev):
+    """dispatcher model vs the real Dispatcher, per call: kind of outcome, reply action, specifier, error class, and the
+    data (as JSON text; not for `ping`, whose data is a time stamp)"""
+    from frappy.protocol.messages import HEARTBEATREQUEST
+    im = ev['impl']
+    for k, (call, rec, mr) in enumerate(zip(im['calls'], im['script'], ev['dmodel']['results'])):
+        impl = {'r': rec.get('r')}
+        if impl['r'] == 'ok':
+            impl.update(a=rec['a'], s=rec['s'], d=rec['d'])
+        elif impl['r'] == 'secop':
+            impl.update(cls=rec['cls'])
+        model = dict(mr)
+        if call[0] == HEARTBEATREQUEST and impl['r'] == 'ok' and model['r'] == 'ok':
+            impl['d'], model['d'] = impl['d'] is not None, model['d'] is not None
+        if impl != model:
+            def short(x):
+                return {kk: (bytes.fromhex(v)[:80] if isinstance(v, str) and kk != 'r' else v) for kk, v in x.items()}
+            return {'what': 'what the dispatcher did with a request', 'index': k, 'request': repr(call)[:120],
+                    'model': short(model), 'impl': short(impl)}
+    return None
 
 
 def oracle_tables(ctx, streams):
@@ -520,6 +912,12 @@ def oracle_tables(ctx, streams):
     return res
 
 
+def oracles_for(ctx, streams):
+    """stream -> {'utf8': …, 'json': …}: the oracle tables as request fields"""
+    distinct = list(dict.fromkeys(streams))
+    return {s: {'utf8': u, 'json': j} for s, (u, j) in zip(distinct, oracle_tables(ctx, distinct))}
+
+
 def same_data(model_hex, impl_data):
     if model_hex is None:
         return impl_data is None
@@ -529,9 +927,10 @@ def same_data(model_hex, impl_data):
         return False
 
 
-def evaluate(ctx, cases):
+def evaluate(ctx, cases, impls=None):
     """runs cases on implementation and model; returns list of dicts (impl, model answer, judge answer)"""
-    impls = [run_impl(c) for c in cases]
+    if impls is None:
+        impls = [run_impl(c) for c in cases]
     streams = [b''.join(bytes.fromhex(x) for x in c['chunks']) for c in cases]
     # one oracle table per distinct stream
     distinct = list(dict.fromkeys(streams))
@@ -539,9 +938,17 @@ def evaluate(ctx, cases):
     reqs = []
     for c, im, s in zip(cases, impls, streams):
         utf8, js = tables[s]
-        reqs.append({'p': 'C07', 'k': 'serve', 'chunks': c['chunks'], 'utf8': utf8, 'json': js, 'script': im['script']})
-        reqs.append({'p': 'C07', 'k': 'judge', 'stream': hx(s), 'outs': [hx(o) for o in im['outs']],
-                     'flags': [line_flags(o, c['disp']['kind'] == 'real') for o in im['outs']]})
+        gone = c.get('gone')
+        reqs.append({'p': 'C07', 'k': 'serve', 'chunks': c['chunks'], 'utf8': utf8, 'json': js, 'script': im['script'],
+                     'fail_after': gone['after'] if gone else None})
+        if gone:
+            reqs.append({'p': 'C07', 'k': 'judge_gone', 'stream': hx(s), 'outs': [hx(o) for o in im['outs']]})
+        else:
+            reqs.append({'p': 'C07', 'k': 'judge', 'stream': hx(s), 'outs': [hx(o) for o in im['outs']],
+                         'flags': [line_flags(o, c['disp']['kind'] == 'real') for o in im['outs']]})
+    real = [i for i, c in enumerate(cases) if c['disp']['kind'] == 'real']
+    for i in real:
+        reqs.append(dispatch_request(impls[i]))
     ans = ctx.driver.batch(reqs)
     out = []
     for i, (c, im, s) in enumerate(zip(cases, impls, streams)):
@@ -549,6 +956,10 @@ def evaluate(ctx, cases):
         if 'driver_error' in model or 'driver_error' in judge:
             raise RuntimeError(f'driver error: {model} {judge} on {c}')
         out.append({'case': c, 'impl': im, 'model': model, 'judge': judge, 'stream': s})
+    for i, a in zip(real, ans[2 * len(cases):]):
+        if 'driver_error' in a:
+            raise RuntimeError(f'driver error: {a} on {cases[i]}')
+        out[i]['dmodel'] = a
     return out
 
 
@@ -569,6 +980,8 @@ def compare(ev):
             return {'what': 'request seen by the dispatcher', 'index': k, 'model': mc, 'impl': repr(ic)[:200]}
     if not model['same_as_unsegmented']:
         return {'what': 'model output depends on the segmentation', 'model': None, 'impl': None}
+    if 'dmodel' in ev:
+        return compare_dispatch(ev)
     return None
 
 
@@ -768,6 +1181,8 @@ def request_class(line):
 
 
 def signature(ev):
+    if ev['case'].get('gone'):
+        return 'C07:peer_gone:' + ev['judge']['bad']['clause']
     bad = ev['judge']['bad']
     clause = bad['clause']
     lines = ev['stream'].split(b'\n')[:-1]
@@ -805,7 +1220,10 @@ def shrink(ctx, ev):
     lines, tail = pieces[:-1], pieces[-1]
 
     def build(ls, with_tail=False):
-        return case_of([b''.join(x + b'\n' for x in ls) + (tail if with_tail else b'')], case['disp'])
+        c = case_of([b''.join(x + b'\n' for x in ls) + (tail if with_tail else b'')], case['disp'])
+        if case.get('gone'):
+            c['gone'] = case['gone']
+        return c
 
     def fails(ls):
         e = evaluate(ctx, [build(ls)])[0]
@@ -826,6 +1244,8 @@ def describe(ev):
     if len(outs) > 8:
         outs = outs[:4] + [f'... {len(outs) - 7} more ...'] + outs[-3:]
     txt = f'{bad}: chunks={[bytes.fromhex(c)[:80] for c in ev["case"]["chunks"]][:6]} dispatcher={ev["case"]["disp"]} sent={outs}'
+    if ev['case'].get('gone'):
+        txt += f" (sendall fails from call {ev['case']['gone']['after']} on: {ev['case']['gone']['exc']})"
     if ev['impl']['died']:
         txt += ' HANDLER DIED: ' + ev['impl']['died_text'].strip().splitlines()[-1]
     return txt
@@ -841,18 +1261,22 @@ def run(ctx):
                 '27 things (fitting reply, reply after events, 6 SECoP errors, 6 other exceptions, 9 kinds of unusable return value) '
                 'or the real Dispatcher over a two-module node; plus concurrent cases (connection A with such a stream, connection B with a fixed '
                 'script, a third thread announcing updates, all on one real dispatcher under the deterministic scheduler with partial '
-                'writes); non-trivial = at least 2 request lines in at least 2 chunks with at '
-                'least one positive and one error reply')
+                'writes; when nothing A sends is carried out by a module, B is compared with B alone on a fresh node); 10 % of the streams with a '
+                'socket whose sendall fails from call n on (5 kinds of exception); sessions (1-3 connections one after the other on one node, 55 % of the '
+                'lines requests that no module carries out with any specifier) run twice, the second time on a fresh node without some of the '
+                'neutral lines (one / all / all of one connection / random half); non-trivial = at least 2 request lines in at least 2 chunks with at '
+                'least one positive and one error reply; for sessions: at least 2 connections, lines left out and lines kept')
     rng = ctx.rng
     big = ctx.tier == 'thorough' or ctx.escalated
     cases = []
     conc_corpus = []
+    sess_corpus = []
     cdir = os.path.join(ctx.verif, 'corpus', 'C07')
     if os.path.isdir(cdir):
         for fn in sorted(os.listdir(cdir)):
             if fn.endswith('.json'):
                 c = json.load(open(os.path.join(cdir, fn)))['case']
-                (conc_corpus if c.get('kind') == 'concurrent' else cases).append(c)
+                {'concurrent': conc_corpus, 'session': sess_corpus}.get(c.get('kind'), cases).append(c)
     ncorpus = len(cases)
     # exhaustive segmentations of short streams
     shorts = list(SHORT_STREAMS)
@@ -866,7 +1290,7 @@ def run(ctx):
             cases.append(case_of(chunks, disp))
         res.count('exhaustive-segmentation streams')
     # generated streams
-    for i in range(ctx.budget(2500, 12000)):
+    for i in range(ctx.budget(2200, 12000)):
         real = rng.random() < 0.2
         stream = gen_stream(rng, real, big)
         disp = {'kind': 'real', 'nan': rng.random() < 0.1} if real else {'kind': 'stub', 'plan': gen_plan(rng)}
@@ -878,6 +1302,8 @@ def run(ctx):
                 disp['plan'] = [k if k != 'errshape' else 'none' for k in disp['plan']]
         for _ in range(2 if len(stream) < 3000 else 1):
             cases.append(case_of(segment(rng, stream), disp))
+            if rng.random() < 0.1:      # the peer goes away: sendall fails from some call on
+                cases[-1]['gone'] = {'after': rng.choice([0, 1, 1, 2, 3, 5, 11, 12, 13, 14, 20]), 'exc': rng.choice(sorted(GONE))}
 
     shrunk = 0
     seen_sigs = set()
@@ -895,6 +1321,11 @@ def run(ctx):
             res.count('lines.async', sum(1 for o in obs if o['a'] in asy))
             nlines = ev['stream'].count(b'\n')
             res.count('dispatcher.' + case['disp']['kind'])
+            if case.get('gone'):
+                res.count('peer-gone.' + case['gone']['exc'])
+                res.count('peer-gone.lines-processed=%s' % (ev['model'].get('done') if ev['model'].get('done', 9) < 4 else '4+'))
+                res.count('peer-gone.loop-stopped' if len(im['outs']) == case['gone']['after'] and
+                          ev['model'].get('done', 0) < nlines else 'peer-gone.all-lines-processed')
             if case['disp'].get('detailed'):
                 res.count('detailed_errors=True')
                 res.count('detailed_errors=True.reports-with-traceback', sum(1 for o in im['outs'] if b'"traceback": "' in o))
@@ -914,6 +1345,7 @@ def run(ctx):
             if len(res.samples) < 5 and nlines in (2, 3) and npos and nerr and len(ev['stream']) < 80:
                 res.samples.append({'chunks': [bytes.fromhex(c).decode('latin-1') for c in case['chunks']], 'dispatcher': case['disp'],
                                     'sent': [o.decode('latin-1')[:100] for o in im['outs']]})
+            count_dispatch(res, ev)
             if ctx.model_ok:
                 dis = compare(ev)
                 if dis is not None:
@@ -929,12 +1361,65 @@ def run(ctx):
                 res.violations.append({'sig': sig, 'what': describe(ev), 'case': ev['case'],
                                        'detail': {'verdict': ev['judge']['bad'], 'died': ev['impl']['died_text']}})
     res.notes.append(f'{ncorpus} corpus cases run first')
+    # ---------- sessions: connections one after the other on one node, run again with neutral lines left out ----------
+    gen = [gen_session(rng) for _ in range(ctx.budget(250, 2500))]
+    orc = oracles_for(ctx, [s for streams, _ in gen for s in streams])
+    answers = ctx.driver.batch([dict({'p': 'C07', 'k': 'neutral', 'stream': hx(s)}, **orc[s]) for streams, _ in gen for s in streams])
+    sessions = list(sess_corpus)
+    pos = 0
+    for streams, disp in gen:
+        neutral = []
+        for _ in streams:
+            if 'driver_error' in answers[pos]:
+                raise RuntimeError(answers[pos])
+            neutral.append(answers[pos]['neutral'])
+            pos += 1
+        sessions.append(session_case(rng, streams, disp, choose_marks(rng, neutral)))
+    for lo in range(0, len(sessions), 200):
+        for o in evaluate_sessions(ctx, sessions[lo:lo + 200]):
+            case = o['case']
+            res.evaluations += 1
+            res.traces += 2 * len(case['conns'])
+            res.count('session.cases')
+            res.count('session.dispatcher.' + case['disp']['kind'])
+            res.count('session.connections=%d' % len(case['conns']))
+            ndrop = sum(1 for c in case['conns'] for k in c['keep'] if not k)
+            nkeep = sum(1 for c in case['conns'] for k in c['keep'] if k)
+            res.count('session.lines-left-out=%s' % (ndrop if ndrop < 4 else '4+'))
+            res.count('session.lines-kept=%s' % (nkeep if nkeep < 4 else '4+'))
+            for lines, c in zip(session_lines(case), case['conns']):
+                for ln, k in zip(lines, c['keep']):
+                    res.count(('session.kept.' if k else 'session.left-out.') + request_class(ln))
+            if ndrop and nkeep and len(case['conns']) > 1:
+                res.nontriv(case)
+            for ev in o['evs']:
+                count_dispatch(res, ev)
+                if ctx.model_ok:
+                    dis = compare(ev)
+                    if dis is not None:
+                        res.disagreements.append({'case': ev['case'], 'model': dis,
+                                                  'impl': {'sent': [x[:100].decode('latin-1') for x in ev['impl']['outs']][:8]}})
+                if ev['judge']['bad'] is not None:
+                    sig = signature(ev)
+                    if sig not in seen_sigs:
+                        seen_sigs.add(sig)
+                        res.violations.append({'sig': sig, 'what': 'in a session: ' + describe(ev), 'case': ev['case'],
+                                               'detail': {'verdict': ev['judge']['bad'], 'died': ev['impl']['died_text']}})
+            if o['bad'] is not None:
+                sig = session_signature(o)
+                if sig in seen_sigs:
+                    continue
+                seen_sigs.add(sig)
+                if shrunk < 8:
+                    o = shrink_session(ctx, o)
+                    shrunk += 1
+                res.violations.append({'sig': sig, 'what': describe_session(o), 'case': o['case'], 'detail': {'verdict': o['bad']}})
     # ---------- concurrency: two connections + an updater thread on one real dispatcher, scheduled deterministically ----------
     conc = [c for c in conc_corpus]
     for _ in range(ctx.budget(80, 1200)):
         conc.append(gen_concurrent(rng))
-    for case in conc:
-        ev = evaluate_concurrent(ctx, case)
+    for ev in (e for lo in range(0, len(conc), 100) for e in evaluate_concurrent_many(ctx, conc[lo:lo + 100])):
+        case = ev['case']
         res.evaluations += 1
         res.traces += 2
         res.count('concurrent.cases')
@@ -942,6 +1427,8 @@ def run(ctx):
         r = ev['res']
         nupd_a = sum(1 for ln in r['A']['lines'] if ln.startswith(b'update '))
         res.count('concurrent.A-got-events' if nupd_a else 'concurrent.A-no-events')
+        if ev['compared_with_B_alone']:
+            res.count('concurrent.A-all-neutral:B-compared-with-B-alone')
         if nupd_a and len(r['A']['lines']) > nupd_a:
             res.nontriv(case)
         if ev['bad'] is not None:
@@ -950,7 +1437,8 @@ def run(ctx):
                 continue
             seen_sigs.add(sig)
             res.violations.append({'sig': sig, 'what': f"{ev['bad']}: concurrent case {case}; A received {r['A']['lines'][:8]}; "
-                                                       f"B received {r['B']['lines'][:8]}",
+                                                       f"B received {r['B']['lines'][:8]}"
+                                                       + (f"; B alone on a fresh node receives {r['B_alone'][:12]}" if 'B_alone' in r else ''),
                                    'case': case, 'detail': {'verdict': ev['bad'], 'steps': r['steps']}})
     return res
 
@@ -964,12 +1452,28 @@ def replay(ctx, rp):
             print(f'{name} received:')
             for ln in ev['res'][name]['lines']:
                 print('   ', ln[:160])
+        if 'B_alone' in ev['res']:
+            print('B alone on a fresh node receives:')
+            for ln in ev['res']['B_alone']:
+                print('   ', ln[:160])
         print('thread errors:', ev['res']['errors'], 'steps:', ev['res']['steps'])
         print('judge  :', ev['bad'])
         return 0 if ev['bad'] is None else 1
+    if case.get('kind') == 'session':
+        o = evaluate_sessions(ctx, [case])[0]
+        print('disp   :', case['disp'])
+        for i, (lines, c, f, k) in enumerate(zip(session_lines(case), case['conns'], o['full'], o['kept'])):
+            print(f'connection {i}:')
+            for ln, keep in zip(lines, c['keep']):
+                print('   ', 'request      ' if keep else 'request (out)', ln[:160])
+            print('    answers with all lines       :', [x[:160] for x in f['outs']])
+            print('    answers without the marked   :', [x[:160] for x in k['outs']])
+        wire = [ev['judge']['bad'] for ev in o['evs'] if ev['judge']['bad'] is not None]
+        print('judge  :', o['bad'], wire)
+        return 0 if o['bad'] is None and not wire else 1
     ev = evaluate(ctx, [case])[0]
     print('chunks :', [bytes.fromhex(c)[:200] for c in case['chunks']])
-    print('disp   :', case['disp'])
+    print('disp   :', case['disp'], 'peer gone:', case.get('gone'))
     print('impl   :', [o[:200] for o in ev['impl']['outs']])
     print('did    :', [r.get('r') for r in ev['impl']['script']])
     if ev['impl']['died']:
